@@ -166,12 +166,13 @@ PROPS = {
         'assumptions': ['Go append within capacity writes in place; slices.Clone returns fresh memory'],
     },
     'C09': {
-        'lean_targets': ['Cqos.Props.C09', 'Cqos.Props.C09u', 'Cqos.Facts.GlueJoin'],
+        'lean_targets': ['Cqos.Props.C09', 'Cqos.Props.C09u', 'Cqos.Props.C09t', 'Cqos.Facts.GlueJoin'],
         'facts': True,
         'theorems': ['Cqos.C09.join_step_emits', 'Cqos.C09.flags_mono', 'Cqos.C09.exact_step', 'Cqos.C09.c09_join_exact',
                      'Cqos.C09.c09_untimed_no_tick', 'Cqos.C09.c09_unite_maximal', 'Cqos.C09.c09_tick_needs_timeout',
                      'Cqos.C09.c09_passAt_at_emission', 'Cqos.C09.c09_passAt_at_release', 'Cqos.C09.unite_ref_step',
-                     'Cqos.C09.c09_unite_greedy', 'Cqos.C09.c09_unite_greedy_nocopy', 'Cqos.C09.uniteRef_maximal', 'Cqos.Facts.glueJoin'],
+                     'Cqos.C09.c09_unite_greedy', 'Cqos.C09.c09_unite_greedy_nocopy', 'Cqos.C09.uniteRef_maximal',
+                     'Cqos.C09.e_step', 'Cqos.C09.e_run', 'Cqos.C09.c09_tick_after_timeout', 'Cqos.Facts.glueJoin'],
         'runs': [{'cmd': 'jstepper', 'args': ['-family', 'untimed']}, {'cmd': 'jstepper', 'args': ['-family', 'mixed']},
                  {'cmd': 'blackbox', 'args': ['-scenario', 'join']}],
         'monitor_prefix': ['C09'],
@@ -181,8 +182,9 @@ PROPS = {
                        'unite (no timeout, copy and no-copy mode) - after ANY run the emitted slices and the buffer are exactly the greedy batching '
                        '(a plain fold, uniteRef) of the input slices consumed so far, the rest of the buffer being the last slice at '
                        'termination, and every slice that fold emits is maximal: it reached JoinSize or is the buffer which the '
-                       'following input slice did not fit (c09_unite_greedy, uniteRef_maximal); timed - a ticker firing emits only if Timeout has elapsed since '
-                       'passAt, and every emission resets passAt to its own clock reading. Tied by the stepper (ticks at half / twice '
+                       'following input slice did not fit (c09_unite_greedy, uniteRef_maximal); timed - in every run with a monotone clock a ticker firing that cuts a slice short at reading t has '
+                       'e + Timeout <= t for the reading e of EVERY earlier emission and t0 + Timeout <= t (c09_tick_after_timeout: all '
+                       'three disciplines, copy and no-copy). Tied by the stepper (ticks at half / twice '
                        'the timeout) and an independent greedy-batching monitor'),
         'level_note': 'partial: clock monotonicity is assumed; in no-copy mode the relation to the fold is stated per control point (what is emitted but not yet released, an interrupted process call); ' + 'trusted: the stepper correspondence for process/pass/isTimeouted; the select loops and the deferred pass are covered by black-box runs and the regenerated skeleton facts',
         'rule': 'as C03, plus an untimed family; the monitor recomputes the greedy batching independently',
